@@ -29,6 +29,9 @@ META = dict(
         "tokenisation helpers (tokenize_with_special)"
     ),
 )
+META["explanation"] += (
+    " Added after the independent seeding rounds 2-3: " 'R5 token_len (shared with C16-R7). R6 a regex complement is only used under an intersection with a marker-free regex (bare `~X` in a Lark terminal is a known finding).'
+)
 
 
 def complement_rule(ctx, R):
